@@ -470,6 +470,9 @@ def run(res, tier, seed):
         else:
             res.violation(rj["msg"][:200], [ex[0], dict(ex[1], flatdoc=flats[ex[1]["docn"] - 1]), ev])
     res.cov["traces_validated_against_impl"] = nexec - len(bad)
+    npr, npr_ok = priority_family(res, wd)
+    res.cov["evaluations"] += npr
+    res.cov["traces_validated_against_impl"] += npr_ok
     res.cov["distinct_nontrivial"] = len(nontriv)
     res.cov["rule"] = ("%d targeted rule sets (a union rule with unequal default priorities x a competitor of every relative priority x document order / import; the default-priority "
                        "ladder: per node kind every ordered pair of pattern forms of the classes -0.5 / 0 / 0.5 and each form against explicit priorities -0.5 .. 0.5) + " % len(targeted) +
@@ -497,6 +500,50 @@ def _default_prio(alt):
             return 0
         return -0.25 if t["t"] == "nsany" else -0.5
     return 0.5
+
+
+PRIORITY_TEXTS = ["1", "2", "-1", "0.5", ".5", "5.", "-0.25", "007", "1.125", "2.000", "-.5", "0", "-0", "1.0", "3", "10",
+                  "+3", "1e1", "x", "", "1 2", "--1", "NaN", "Infinity", "-Infinity", "1.2.3", "0x10", "1,5", "-", ".", "- 1", "2-", "1e0", "+.5", "one", "2;", "1.5.", "-+1"]
+
+
+def priority_family(res, wd):
+    """the priority ATTRIBUTE as a text: a Number with an optional minus sign counts as that number, anything else is an error
+    (TemplateRules!PriorityLexOk / PriorityPick), on both lookup paths"""
+    from xml.sax.saxutils import quoteattr
+    pwd = os.path.join(wd, "prio"); os.makedirs(pwd)
+    open(os.path.join(pwd, "in.xml"), "w").write("<doc><a/></doc>")
+    cases = []
+    for k, t in enumerate(PRIORITY_TEXTS):
+        open(os.path.join(pwd, "p%d.xsl" % k), "w").write(
+            '<xsl:stylesheet version="1.0" xmlns:xsl="http://www.w3.org/1999/XSL/Transform"><xsl:output method="text"/>'
+            '<xsl:template match="/"><xsl:apply-templates select="doc/a"/></xsl:template>'
+            '<xsl:template match="a" priority=%s>A</xsl:template><xsl:template match="a" priority="1">B</xsl:template></xsl:stylesheet>' % quoteattr(t))
+        cases.append({"id": k, "dir": pwd, "xsl": "p%d.xsl" % k, "trace": "none", "select": False})
+    events = []
+    for lookup, hname, extra in (("quiet", "xslt", {}), ("reporting", "xsltd", {"quiet": False})):
+        exe = vlib.build_harness(hname)
+        cp_ = os.path.join(pwd, "cases-%s.ndjson" % lookup); vlib.write_ndjson(cp_, [dict(c, **extra) for c in cases])
+        out = subprocess.run([exe, cp_], capture_output=True, text=True, timeout=600)
+        dones = {}
+        for line in out.stdout.splitlines():
+            try:
+                ev = json.loads(line)
+            except ValueError:
+                continue
+            if ev.get("e") == "Done":
+                dones[ev["id"]] = ev
+        for k, t in enumerate(PRIORITY_TEXTS):
+            dn = dones.get(k)
+            if dn is None:
+                res.violation("priority family: the process died on priority=%r (%s lookup)" % (t, lookup), [{"priority": t}]); continue
+            txt = "".join(x.get("v", "") for x in dn.get("tree", []) if x.get("k") == "text") if dn["status"] == 0 else ""
+            events.append({"e": "Priority", "text": xdm.cps(t), "status": dn["status"], "chosen": txt, "lookup": lookup, "shown": t})
+    rejects, st = vlib.tlc_validate_sharded(TRACE, events, tag="c10prio", env={"DOCS": os.path.join(wd, "docs.ndjson")}, stateless=True, timeout=600)
+    for rj in rejects:
+        ev = events[rj["line"]]
+        res.violation("priority=%r (%s lookup): %s" % (ev["shown"], ev["lookup"], rj["msg"][:300]), [ev])
+    res.notes["priority_texts"] = len(events)
+    return len(events), len(events) - len(rejects)
 
 
 def classify(tree, ev, lookup="quiet"):
